@@ -576,6 +576,12 @@ def run(tier='quick', seed=0):
     bad = instr.roundtrip_report()
     if bad:
         R.checker_errors.append(f'instrumentation round-trip failed for {bad}')
+    from .. import suiteguard
+    g = suiteguard.run()
+    R.extra['instrumented_suite_guard'] = g
+    if not g['ok']:
+        # the repository's own tests do not pass on the instrumented modules: the tree (or the instrumenter) is broken; no verdict is trusted
+        R.checker_errors.append(f"instrumented suite guard failed: {g['line']} {g['summary']}")
     qt = 30000 if tier == 'quick' else 120000
     gstates = ['pristine', 'warmed'] + (['warmed-reverse'] if tier == 'thorough' else [])
     tasks = [(spec, cname, g, qt) for spec, cname in spec_types().items() for g in gstates]
